@@ -36,6 +36,17 @@ def main(argv: list[str]) -> int:
     if len(cfgs) < 1000:
         raise MachineryError("too few configurations emitted")
     ident = [1, 2, 3]
+    # the typeshed world is slow: all seeds without prior builds, and a few prior builds for two seeds; never other file orders
+    slow = {"lists"}
+    def slow_ok(c: Any) -> bool:
+        if c["world"] not in slow:
+            return True
+        if c["order"] != ident:
+            return False
+        if not c["prior"]:
+            return True
+        return c["seed"] in (0, 7) and len(c["prior"]) == 1 and (c["prior"][0]["world"], c["prior"][0]["opts"]) in (("chain", "same"), ("errors", "py310"), ("rich", "win311loose"))
+    cfgs = [c for c in cfgs if slow_ok(c)]
     if tier == "quick":
         core = [c for c in cfgs if (c["order"] == ident and not c["prior"])                        # all seeds
                 or (c["seed"] in (0, 42) and not c["prior"])                                       # all orders
@@ -84,17 +95,18 @@ def main(argv: list[str]) -> int:
     for x in results:
         c = x["cfg"]
         if c["seed"] == 0 and c["order"] == ident and not c["prior"]:
-            base[(c["world"], c["fmt"])] = x["res"]
+            base[(c["world"] + "/" + c.get("mopts", "default"), c["fmt"])] = x["res"]
     base_any = {w: res for (w, f), res in base.items()}
     n_cmp = 0
     nontrivial = 0
     for x in results:
         c, res = x["cfg"], x["res"]
-        key_cfg = {"world": c["world"], "order": c["order"], "prior": c["prior"], "seed": c["seed"]}
+        wkey = c["world"] + "/" + c.get("mopts", "default")
+        key_cfg = {"world": wkey, "order": c["order"], "prior": c["prior"], "seed": c["seed"]}
         if "crash" in res:
             v.violation("crash:" + json.dumps(key_cfg, sort_keys=True), x, "internal error: " + res["crash"][-500:])
             continue
-        b = base.get((c["world"], c["fmt"])) or base_any[c["world"]]
+        b = base.get((wkey, c["fmt"])) or base_any[wkey]
         n_cmp += 1
         if res["messages"]:
             nontrivial += 1
@@ -102,7 +114,7 @@ def main(argv: list[str]) -> int:
         if c["order"] == ident:
             if res["messages"] != b["messages"] or res["status"] != b["status"]:
                 what = "diagnostics differ from the baseline context: %r vs %r" % (res["messages"][:4], b["messages"][:4])
-            elif (c["world"], c["fmt"]) in base and res["cache"] != b["cache"]:
+            elif (wkey, c["fmt"]) in base and res["cache"] != b["cache"]:
                 diff = sorted(k for k in set(res["records"]) | set(b["records"]) if res["records"].get(k) != b["records"].get(k))
                 what = "cache records differ from the baseline context: " + ", ".join(diff[:8])
         else:
@@ -115,7 +127,7 @@ def main(argv: list[str]) -> int:
                 res["warm_messages"][:6], b["warm_messages"][:6])
         if what:
             dim = "seed" if c["seed"] != 0 and c["order"] == ident and not c["prior"] else ("order" if c["order"] != ident else "prior")
-            key = "nondet:%s:%s:%s" % (dim, c["world"], json.dumps(c["order"] if dim == "order" else (c["prior"] if dim == "prior" else c["seed"])))
+            key = "nondet:%s:%s:%s" % (dim, c["world"] if wkey.endswith("/default") else wkey, json.dumps(c["order"] if dim == "order" else (c["prior"] if dim == "prior" else c["seed"])))
             if dim == "order":
                 # which diagnostics differ (positions stripped) is part of the key: a listed finding never hides another difference
                 import hashlib, re as _re
